@@ -293,6 +293,12 @@ func (f *family) runBatch(peg string, cases []*gcase, vs []variant, bno int) {
 	if err != nil {
 		die("corpus run: %v", err)
 	}
+	if cp.WatchdogHits > 0 {
+		f.c.run.Incon(fmt.Sprintf("%d child processes were stopped by the wall-clock watchdog", cp.WatchdogHits))
+	}
+	if cp.Abandoned > 0 {
+		f.c.run.Count("requests_not_run_after_repeated_child_deaths", cp.Abandoned)
+	}
 	for hk, ri := range hwhere {
 		hr := results[ri]
 		cs := cases[hk.ci]
